@@ -154,6 +154,12 @@ def gen_cases(tier, rng):
     # negotiation failure: only the request was written
     add(Case(rng, nla=1, ram=1, dom="DOM", user="user", pw=cred(rng, "ascii"), variant="neg-failure"))
     add(Case(rng, nla=0, selected=2, dom="DOM", user="user", pw=cred(rng, "ascii"), variant="not-requested"))
+    # downgrade attempt: the server answers the negotiation with PROTOCOL_RDP (0) although TLS / NLA was requested, then plays
+    # the MCS / licence conversation in clear: whatever the client does, the password must not reach the raw transport
+    for bits in range(8):
+        nla, ram, auto = bits & 1, (bits >> 1) & 1, (bits >> 2) & 1
+        add(Case(rng, nla=nla, selected=0, ram=ram, auto=auto, dom=cred(rng, "ascii"), user=cred(rng, "latin1"),
+                 pw=cred(rng, ["ascii", "cjk", "astral", "latin1"][bits % 4]), variant="downgrade"))
     if not quick:
         for _ in range(400):
             cls = rng.choice(CLASSES[:5])
@@ -370,14 +376,9 @@ def oracle(line, out_full, expect):
         # only the UTF-16 password is a field of the Client Info: neither its UTF-8 form nor any hash belongs there
         for lab, p in pats:
             if not lab.startswith("UTF-16") and p in info_frame: return "the %s occurs in the Client Info PDU" % lab
-    # ---- expectations of the scripted variant
-    if expect:
-        v = expect["variant"]
-        if v in ("honest", "oem", "ssl-selected", "short") and res != "ok": return "an honest server was refused: " + res
-        if v == "no-proof" and (res == "ok" or len(cssp) != 2 or frames): return "the server did not prove the session key, yet: %s, %d CredSSP messages, %d frames" % (res, len(cssp), len(frames))
-        if v == "untrusted" and (res == "ok" or units): return "untrusted certificate with check_certificate: %s, %d units inside TLS" % (res, len(units))
-        if v in ("neg-failure", "not-requested") and (res == "ok" or units or o["hs"] != "-"): return "refused negotiation, yet the client went on"
-        if v == "oversize" and (res == "ok" or info is not None): return "a Client Info beyond the TPKT length was not refused"
+    # ---- what the scripted variant "should" lead to (an honest server accepted, an unproven / untrusted / refused server
+    #      rejected) is NOT judged here: those are C03 / C01 / C02 statements.  C17 is judged by the searches and the mode
+    #      table above on whatever the client DID write; the model/implementation diff pins the outcomes.
     return None
 
 def classify(line, out):
